@@ -22,7 +22,7 @@ SCHEMA = [Opt('int', b'i', 0, 7), Opt('str', b's', 0, b'd'), Opt('intl', b'il', 
           Opt('ptr', b'np', 0, cbs=('noparse:0',)), Opt('ptrl', b'npl', 0, None, cbs=('noparse:0',))]      # pointer options declared without a value parser
 
 # (text, newlines it contains)
-NOISE = [(b'# c\n', 1), (b'// c\n', 1), (b'/* a\nb */ ', 1), (b'/**/', 0), (b'\n', 1), (b'  \t', 0), (b's = "m\nl"\n', 2),
+NOISE = [(b's = "${SETV:-a\nb\nc}"\n', 3), (b's = "x${UNSETV:-\n}y"\n', 2), (b'# c\n', 1), (b'// c\n', 1), (b'/* a\nb */ ', 1), (b'/**/', 0), (b'\n', 1), (b'  \t', 0), (b's = "m\nl"\n', 2),
          (b's = "c\\\nl"\n', 2), (b"s = 'q\nr\\\ns'\n", 3), (b's = ${UNSET\n:-x}\n', 2), (b'i = 1\n', 1), (b'sec { a = 2\n}\n', 2),
          (b'####\n', 1), (b'/* *\n * \n */\n', 3), (b'il = {1,\n2}\n', 2), (b'kv { k = v\n}\n', 2)]
 
@@ -46,7 +46,7 @@ HISTORY = [(b'i = 1\n\n\n# c\ni = 2\n', False), (b'\n\n\n\ns = "a\nb"\n', True),
 
 def build(prefix, err_text, err_off, placement, eof):
     """returns (scenario lines, expected (file, line))"""
-    lines = gen.prelude(SCHEMA, 0)
+    lines = ['env %s %s' % (hx(b'SETV'), hx(b'set'))] + gen.prelude(SCHEMA, 0)
     pre = b''.join(t for t, _ in prefix)
     nl = sum(n for _, n in prefix)
     if eof:
@@ -178,7 +178,7 @@ def generate(rng, tier):
     for i in range(30 if tier == 'quick' else 400):
         text = b''.join(r.pick(NOISE)[0] for _ in range(1 + r.below(6))) + gen.rand_text(r, SCHEMA[:8], comments=True)
         n += 1
-        yield Scn('ok%d' % n, gen.prelude(SCHEMA, 0) + ['parse_buf 0 ' + hx(text)], {'class': 'accepted', 'expect': None, 'noise': 1})
+        yield Scn('ok%d' % n, ['env %s %s' % (hx(b'SETV'), hx(b'set'))] + gen.prelude(SCHEMA, 0) + ['parse_buf 0 ' + hx(text)], {'class': 'accepted', 'expect': None, 'noise': 1})
 
 
 def nontrivial(scn, il):
